@@ -272,6 +272,27 @@ impl Driver for C20 {
             Box::new(lo..lo + n)
         };
         let mut cnt = 0u64;
+        let vals: Vec<u64> = vals.collect();
+        // a panic anywhere in a conversion is a violation of totality: the block
+        // runs under one classifier; on a panic the value is located individually
+        let whole = catch(|| {
+            let mut yr2 = yr.clone();
+            for &x in &vals {
+                let _ = laws(x as u32, yr2.u32());
+            }
+        });
+        if let Out::Panic(site) = whole {
+            let mut yr2 = yr.clone();
+            for &x in &vals {
+                let y = yr2.u32();
+                if catch(|| laws(x as u32, y)).is_panic() {
+                    ctx.violation(&format!("law:panic@{}", site), J::obj(vec![("x", J::u(x)), ("what", J::s("a type-identifier conversion/equality panicked"))]));
+                    break;
+                }
+            }
+            ctx.evals(vals.len() as u64);
+            return;
+        }
         for x in vals {
             let x = x as u32;
             cnt += 1;
@@ -280,7 +301,10 @@ impl Driver for C20 {
                 failed = true;
                 break;
             }
-            let r = if x & 1 == 0 { p32.classify(x) } else { p64.classify(x) };
+            let r = match catch(|| if x & 1 == 0 { p32.classify(x) } else { p64.classify(x) }) {
+                Out::Val(r) => r,
+                Out::Panic(_) => Err("classification panicked"),
+            };
             // around the range boundaries both layouts see every value
             let r2 = if x & 0xfff == 0xfff || x & 0xfff == 0 || x < 64 {
                 if x & 1 == 0 {
